@@ -21,7 +21,7 @@ def parseOrigins (s : String) : Option (List (Bytes × Bytes)) :=
 
 def handle (op : String) (a : List String) : Option String :=
   match op, a with
-  | "c06.verify", [rk, nk, ct, sig, blind, ck, known] =>
+  | "c06.verify", rk :: nk :: ct :: sig :: blind :: ck :: known :: _ =>
     match parseV rk, parseV nk, parseV ct, parseV sig, parseV blind, parseV ck with
     | some rk, some nk, some ct, some sig, some blind, some ck =>
       let cache0 : Cache := if known = "1" then [(nameOf ck, emptyState)] else []
